@@ -60,14 +60,23 @@ func ccmSpec(blk string, ns, ts int, general bool) spec {
 
 // build creates the library AEAD for key over a fresh block.
 func (s spec) build(key []byte) (cipher.AEAD, error) {
-	b, err := sm4.NewCipher(key)
+	b, err := newBlock(key)
 	if err != nil {
 		return nil, err
 	}
 	return s.buildOn(b)
 }
 
-func newBlock(key []byte) (cipher.Block, error) { return sm4.NewCipher(key) }
+// newBlock gives NewCipher a private copy of the key and overwrites the copy once the constructor has returned: block
+// and AEADs built on it must own their key material.
+func newBlock(key []byte) (cipher.Block, error) {
+	k := append([]byte{}, key...)
+	b, err := sm4.NewCipher(k)
+	for i := range k {
+		k[i] = 0xA5
+	}
+	return b, err
+}
 
 // buildOn creates the library AEAD over an existing block of the library (which
 // several AEADs may share).
